@@ -331,14 +331,15 @@ def short_branch(b):
     return "master" if b in ("origin/master", "origin/main") else b[len("origin/"):]
 
 
-def branch_oracle(repo, lower_trunk=None):
+def branch_oracle(repo, lower_trunk=None, ties_reversed=False):
     """-> order (ascending), {branch: {builds, anc, lower, head}}; lower_trunk: which of two coexisting trunks
     (origin/main, origin/master) is taken as the lower-sorted one"""
     # (named "origin/..." whatever the remote; only the trunk and the release branches are reported: a ref such as
     # origin/release-notes or origin/feature/x is somebody's work in progress)
     heads = {b: repo.commits[cid] for b, cid in repo.branches.items()
              if short_branch(b) == "master" or b.startswith("origin/release/")}
-    order = sorted(heads, key=lambda b: (branch_sort_key(b), 0 if b == lower_trunk else 1))
+    # (release branches whose names sort alike - 1.2 and 1_2 - come in either order: ties_reversed gives the other one)
+    order = sorted(sorted(heads, reverse=ties_reversed), key=lambda b: (branch_sort_key(b), 0 if b == lower_trunk else 1))
     tagged = set(repo.tags.values())
     lower = set()
     exp = {}
